@@ -191,6 +191,18 @@ Theorem C11_shufflesplit_rejects : forall labels n_splits balancing test_size tr
 Proof. exact bss_rejects. Qed.
 Print Assumptions C11_shufflesplit_rejects.
 
+(** ** the decidable checks evaluated on the OBSERVED folds mean what they say *)
+Theorem C11_check_partition : forall l n, is_perm_seq l n = true <-> Permutation l (seq 0 n).
+Proof. exact is_perm_seq_spec. Qed.
+Print Assumptions C11_check_partition.
+
+Theorem C11_check_split : forall labels s,
+  split_ok labels s = true <->
+  (Permutation (fst s ++ snd s) (seq 0 (length labels)) /\
+   forall i j, In i (fst s) -> In j (snd s) -> lab labels i <> lab labels j).
+Proof. exact split_ok_spec. Qed.
+Print Assumptions C11_check_split.
+
 (** ** non-vacuity: concrete runs of the models (these are inputs of the
     correspondence check as well) *)
 
